@@ -301,7 +301,8 @@ Fixpoint wf (e : expr) : bool :=
                         match rs with [] => true | (_, b) :: t => wf b && gen_par b && negb (starts_with_not b) && go t end) rest
   | EListComp elt _ it | EGen _ elt _ it => wf elt && gen_par elt && wf it && gen_par it
   | EFloorDiv l r => wf l && gen_par l && wf r && gen_par r && negb (starts_with_not r)
-  | EJuxt _ (EConst (CStr s)) => forallb safe_char s     (* "s" "s": implicit string concatenation *)
+  | EJuxt _ (EConst (CStr s)) => forallb safe_char s && match s with [] => false | _ => true end
+                                   (* "s""s": implicit string concatenation; `""""` would open a triple-quoted string *)
   | EJuxt _ _ => false
   end.
 
